@@ -10,16 +10,18 @@ COQ_CHECK = ("Model.C07", "check")
 COQ_FALLBACK = None
 COQ_IMPORTS = ""
 SHARD = 40
-RULE = ("mock mappers over random symmetric multigraph neighbour arrays (rings, stars, grids, isolated pixels, duplicate edges, "
+RULE = ("mock mappers over random symmetric multigraph neighbour arrays (rings, stars, paths, isolated pixels, duplicate edges, "
         "shuffled row order, padded with -1; 2-10 pixels) with dyadic coefficients of either sign, dyadic signals in and outside [0,1], "
-        "random split-cross tables (1 or 3 distinct vertices, barycentric or signed dyadic weights, own pixel present/absent); real "
+        "random split-cross tables (1, 3 or 4 distinct vertices, barycentric or signed dyadic weights, own pixel present/absent); real "
         "MapperRectangular on meshes 3x3..5x6 and real MapperDelaunay on 5-9 lattice points with positive adapt images and "
         "signal_scale 1/2; all seven schemes through regularization_matrix_from / regularization_weights_from / "
         "linear_obj.regularization_matrix and the util functions; reg_split_from directly (incl. MeshException / appended vertex); "
-        "MockInversion with 1-3 objects with and without regularization in every order (regularization_matrix, _reduced); a malformed "
-        "stream (neighbour index out of range -> IndexError, negative index wrap, asymmetric lists where the spec is silent). "
-        "Non-trivial = at least 3 parameters and 2 neighbour pairs / cross rows; distinct = distinct JSON input.")
-EXHAUSTIVE = {}
+        "MockInversion with 1-3 objects with and without regularization in every order (regularization_matrix, _reduced, "
+        "regularization_weights_from(index)); rectangular_neighbors_from on EVERY shape 1..8 x 1..8 (thorough 1..12), also through "
+        "Mesh2DRectangular.neighbors; Gaussian / exponential kernel schemes on 2-7 half-lattice points (covariance assembly, inverse "
+        "contract, Cholesky); a malformed stream (neighbour index out of range -> IndexError, negative index wrap, asymmetric lists "
+        "where the spec is silent). Non-trivial = at least 3 parameters and 2 neighbour pairs / cross rows; distinct = distinct JSON input.")
+EXHAUSTIVE = {"quick": "rectangular_neighbors_from: all shapes 1..8 x 1..8", "thorough": "rectangular_neighbors_from: all shapes 1..12 x 1..12"}
 TRUSTED = ["hand-written Gallina model coq/Model/C07.v (update lists in the code's loop order + scatter), tied to /repo by this "
            "correspondence run, evaluated inside Coq by vm_compute at exact rationals; comparison tolerance 1e-11*(1+|v|) because the "
            "1e-8 ridge is not a dyadic number (all other generated quantities are dyadic, so only the diagonal is inexact)",
@@ -157,6 +159,15 @@ def gen_inputs(tier, rng):
             if rng.random() < 0.4: objs.append({"scheme": None, "obj": {"params": n, "nb": [], "sizes": [], "signals": [], "smap": [], "ssizes": [], "sw": []}})
             else: objs.append({"scheme": rand_scheme(rng), "obj": rand_mock_obj(rng, max(n, 2))})
         yield {"op": "inversion", "objs": objs}
+    # H. rectangular_neighbors_from on every shape up to 8 x 8 (12 x 12 thorough), degenerate 1 x N / N x 1 included
+    top = 12 if big else 8
+    for h in range(1, top + 1):
+        for w in range(1, top + 1):
+            yield {"op": "rectnb", "shape": [h, w]}
+    # G. kernel schemes (partial): covariance assembly + inverse contract + observed SPD
+    for i in range(120 if big else 12):
+        yield {"op": "kernel", "gauss": bool(i % 2), "npts": rng.randint(4 if i % 3 == 0 else 2, 7), "scale": rng.choice(["1/2", "1", "3/2"]),
+               "coef": rng.choice(COEFS), "real": bool(i % 3 == 0), "seed": rng.randrange(10 ** 9)}
     # F. malformed neighbour arrays
     for i in range(80 if big else 12):
         n = rng.randint(2, 6)
@@ -299,6 +310,8 @@ def run_case(inp):
     if op == "delaunay": return run_delaunay(aa, inp)
     if op == "split": return run_split(aa, inp)
     if op == "inversion": return run_inversion(aa, inp)
+    if op == "kernel": return run_kernel(aa, inp)
+    if op == "rectnb": return run_rectnb(aa, inp)
     raise ValueError(op)
 
 def size_of(s, o):
@@ -432,3 +445,63 @@ def run_inversion(aa, inp):
         else: ok = ok and bool(np.all(w == np.asarray(lo.regularization.regularization_weights_from(linear_obj=lo), dtype=float)))
     return {"coq": term, "out": {"shape": [len(H), len(Hr)], "order": [d["scheme"]["name"] if d["scheme"] else None for d in inp["objs"]]},
             "py_ok": ok, "kind": "inversion:%d" % len(objs), "nontrivial": len(objs) >= 2}
+
+def run_kernel(aa, inp):
+    """GaussianKernel / ExponentialKernel: (a) covariance assembly vs the model (profile values handed over as a table keyed by the
+    exact squared distance), (b) the returned matrix against the contract of the inverse, (c) SPD observed (Cholesky)."""
+    import random, math
+    rng = random.Random(inp["seed"])
+    pts = set()
+    while len(pts) < inp["npts"]: pts.add((rng.randint(-6, 6) / 2.0, rng.randint(-6, 6) / 2.0))
+    pts = sorted(pts); rng.shuffle(pts)
+    scale = float(Fraction(inp["scale"])); coef = float(Fraction(inp["coef"]))
+    if inp["gauss"]:
+        from autoarray.inversion.regularization.gaussian_kernel import gauss_cov_matrix_from as cov_from
+        reg = aa.reg.GaussianKernel(coefficient=coef, scale=scale)
+        prof = lambda d2: float(np.exp(-1.0 * np.sqrt(d2) ** 2 / (2 * scale ** 2)))
+    else:
+        from autoarray.inversion.regularization.exponential_kernel import exp_cov_matrix_from as cov_from
+        reg = aa.reg.ExponentialKernel(coefficient=coef, scale=scale)
+        prof = lambda d2: float(np.exp(-1.0 * np.sqrt(d2) / scale))
+    arr = np.array(pts, dtype=float)
+    if inp["real"]:
+        try:
+            dm = aa.Mesh2DDelaunay(values=aa.Grid2DIrregular(pts)); dm.delaunay
+        except Exception as e:
+            return {"coq": None, "out": "degenerate point set: " + type(e).__name__, "py_ok": None, "kind": "kernel:skipped", "nontrivial": False}
+        mask = aa.Mask2D.all_false(shape_native=(3, 3), pixel_scales=1.0)
+        grid = aa.Grid2D.from_mask(mask=mask)
+        mg = aa.MapperGrids(mask=mask, source_plane_data_grid=grid, source_plane_mesh_grid=dm)
+        mapper = aa.Mapper(mapper_grids=mg, over_sampler=aa.OverSamplerUniform(mask=mask, sub_size=1), regularization=None)
+    else:
+        mapper = aa.m.MockMapper(source_plane_mesh_grid=arr, parameters=len(pts))
+    C = np.asarray(cov_from(scale=scale, pixel_points=arr), dtype=float)
+    H = np.asarray(reg.regularization_matrix_from(linear_obj=mapper), dtype=float)
+    w = np.asarray(reg.regularization_weights_from(linear_obj=mapper), dtype=float)
+    tbl = {}
+    for (y1, x1) in pts:
+        for (y2, x2) in pts:
+            d2 = (Fraction(x1) - Fraction(x2)) ** 2 + (Fraction(y1) - Fraction(y2)) ** 2
+            tbl[d2] = frac(prof(np.float64(float(d2))))
+    cpts = clist([ctup([cq(frac(y)), cq(frac(x))]) for (y, x) in pts])
+    ctbl = clist([ctup([cq(k), cq(v)]) for k, v in sorted(tbl.items())])
+    t1 = f"(KCov {cpts} {ctbl} {cqm(mat_out(C))})"
+    t2 = f"(KKernel {cq(Fraction(inp['coef']))} {cqm(mat_out(C))} {cqm(mat_out(H))})"
+    ok = bool(np.abs(H - H.T).max() <= 1e-9 * max(1.0, np.abs(H).max())) and w.shape == (len(pts),) and bool(np.all(w == coef))
+    try: np.linalg.cholesky(H); np.linalg.cholesky(C)
+    except Exception: ok = False
+    return {"coq": t1, "extra_coq": [t2], "out": {"points": pts, "cond": float(np.linalg.cond(C)), "min_eig": float(np.linalg.eigvalsh((H + H.T) / 2).min())},
+            "py_ok": ok, "kind": "kernel:" + ("gauss" if inp["gauss"] else "exp"), "nontrivial": len(pts) >= 3}
+
+def run_rectnb(aa, inp):
+    h, w = inp["shape"]
+    nb, sz = aa.util.mesh.rectangular_neighbors_from(shape_native=(h, w))
+    rows = [[int(x) for x in r[:int(k)]] for r, k in zip(nb, sz)]
+    ok = None
+    if h >= 3 and w >= 3:
+        # the class layer (astype("int"), Neighbors) must hand over the same table
+        mesh = aa.Mesh2DRectangular.overlay_grid(shape_native=(h, w), grid=np.array([[0.0, 0.0], [1.0, 1.0]]))
+        rows2 = [[int(x) for x in r[:int(k)]] for r, k in zip(np.asarray(mesh.neighbors), np.asarray(mesh.neighbors.sizes))]
+        ok = rows2 == rows and int(mesh.pixels) == h * w
+    return {"coq": f"(KRect {cnat(h)} {cnat(w)} {czm(rows)})", "out": rows if h * w <= 12 else rows[:6], "py_ok": ok,
+            "kind": "rectnb" + (":degenerate" if min(h, w) < 2 else ""), "nontrivial": min(h, w) >= 2}
